@@ -24,6 +24,8 @@ RULE = ("1-7 protoclusters on a gene grid (cores of 1-4 genes, neighbourhoods of
         "and groups that meet only across the origin; 3 insertion orders per case. Non-trivial: >= 2 protoclusters "
         "related by a shared defining gene, overlapping cores or overlapping extents; distinct by layout.")
 ASSUMPTIONS = [
+    "A sideloaded protocluster has no defining genes (SideloadedProtocluster.definition_cdses is documented so), also "
+    "when the user named it like a product for which genes in its core carry a core annotation.",
     "An extra SINGLE for a protocluster that was absorbed into a stronger candidate (the code's 'promotion' case) "
     "is not forbidden by the statement and is not checked.",
     "A candidate's span: covers all member extents; the hull on a line; the shortest covering arc on a ring when "
@@ -74,6 +76,13 @@ def gen_case(rng):
         # defining genes: a subset of the core genes gets the CORE function for this product
         # (a sideloaded protocluster, as --sideload adds them, never has any)
         sideloaded = rng.random() < 0.15
+        if sideloaded and protos and rng.random() < 0.5:
+            # handed in under the name of a product that a rule found in the same place (the name is the user's choice)
+            named_like = rng.choice(protos)
+            if not named_like["sideloaded"]:
+                product = named_like["product"]
+                first, ncore = named_like["first"], named_like["ncore"]
+                core_genes = [(first + k) % n_genes for k in range(ncore)]
         defs = [] if sideloaded else sorted(set(rng.choice(core_genes) for _ in range(rng.randrange(1, 3))))
         for d in defs:
             genes[d]["core"].append(product)
@@ -122,7 +131,7 @@ def build(case, order):
         proto = W.make_protocluster(p["core"], p["extent"], p["product"], cutoff=10, neighbourhood=p["nb"] * 100,
                                     sideloaded=p.get("sideloaded", False))
         record.add_protocluster(proto)
-        protos[p["product"]] = proto
+        protos[idx] = proto
     record.create_candidate_clusters()
     return record, protos
 
@@ -209,6 +218,15 @@ def check_record(ctx, case, record, protos):
     wrap = length if case["circular"] else None
     cands = list(record.get_candidate_clusters())
     plist = list(protos.values())
+    # an area handed in from outside has no defining gene, whatever name it was given: it joins a chemical hybrid only
+    # through its core lying inside the hybrid's core span
+    for p in plist:
+        if type(p).__name__ == "SideloadedProtocluster":
+            ctx.count("op:sideloaded-without-defining-genes")
+            if p.definition_cdses:
+                ctx.violate("sideloaded-protocluster-has-no-defining-gene",
+                            {"product": p.product, "core": str(p.core_location),
+                             "defining": sorted(g.get_name() for g in p.definition_cdses)}, case)
 
     def bases(loc):
         return ring.normalise(ring.parts_of(loc))
